@@ -10,6 +10,7 @@ pub mod c05;
 pub mod c05_loop;
 pub mod c06;
 pub mod c07;
+pub mod c08;
 pub mod pool;
 pub mod c09;
 pub mod c10;
@@ -33,7 +34,7 @@ pub struct PropDef {
 }
 
 pub fn all() -> &'static [PropDef] {
-    &[c01::DEF, c02::DEF, c03::DEF, c04::DEF, c05::DEF, c06::DEF, c07::DEF, c09::DEF, c10::DEF, c11::DEF, c18::DEF, c19::DEF]
+    &[c01::DEF, c02::DEF, c03::DEF, c04::DEF, c05::DEF, c06::DEF, c07::DEF, c08::DEF, c09::DEF, c10::DEF, c11::DEF, c18::DEF, c19::DEF]
 }
 
 /// Serde helper: u128 as decimal string (serde_json cannot read back large
